@@ -9,6 +9,7 @@ import Proofs.X690Prim
 import Proofs.X690Der
 import Proofs.Kernels
 import Proofs.KernelReal
+import Proofs.KernelRealDec
 import Proofs.KernelWrap
 
 namespace Asn1.C03
@@ -209,6 +210,24 @@ theorem source_der_oid_is_x690 (arcs : List Nat) (c l : Bytes) (hc : oidToConten
   congr 2
   have hx : X690.oidOctets arcs = some c := by rw [← oid_is_x690]; exact hc
   have hder : X690.derElem (.prim .oid) (.oid arcs) = some (X690.wrap .universal false 6 c) := by
+    simp [X690.derElem, X690.derBody, PrimTy.univNum, hx]
+  rw [identifier_is_x690, length_is_x690 _ l hl]
+  simp [X690.der, hder, X690.wrap, Option.getD]
+
+/-- the same for a non-zero binary REAL: translated contents writer (base 2), translated header loop = `X690.der` -/
+theorem source_der_real_is_x690 (m e : Int) (hm : m ≠ 0) (c l : Bytes) (hc : realBinToContent m e = some c)
+    (hl : encodeLength c.length = some l) :
+    GenK.realBin (if m < 0 then -1 else 1) (m.natAbs : Int) 2 e = .ok (Kernels.bytesInts c) ∧
+      GenK.wrapTags false false [[0, 0, 9]] true (Kernels.bytesInts c) false false =
+        .ok (Kernels.bytesInts ((X690.der (.prim .real) (.real (.fin m 2 e))).getD [])) := by
+  obtain ⟨fo, rest, hcr, _⟩ := Kernels.realBinToContent_head m e c hm hc
+  have hne : c ≠ [] := by rw [hcr]; simp
+  refine ⟨by rw [Kernels.realBin_kernel m e hm, hc]; rfl, ?_⟩
+  have hw := Kernels.wrap_prim_kernel false 9 c l hne hl
+  rw [show ([[0, 0, 9]] : List Py.Tup) = [[0, 0, ((9 : Nat) : Int)]] from rfl, hw]
+  congr 2
+  have hx : X690.realOctets (.fin m 2 e) = some c := by rw [← real_is_x690]; exact hc
+  have hder : X690.derElem (.prim .real) (.real (.fin m 2 e)) = some (X690.wrap .universal false 9 c) := by
     simp [X690.derElem, X690.derBody, PrimTy.univNum, hx]
   rw [identifier_is_x690, length_is_x690 _ l hl]
   simp [X690.der, hder, X690.wrap, Option.getD]
